@@ -23,6 +23,12 @@ func NewDecoder(r io.Reader) *Decoder {
 	return &Decoder{dec: dec}
 }
 
+// UseNumber causes the Decoder to unmarshal a number into an interface value
+// as a [json.Number] instead of as a float64.
+func (d *Decoder) UseNumber() {
+	d.dec.UseNumber()
+}
+
 func (d *Decoder) Decode(v any) error {
 	return d.dec.Decode(v)
 }
